@@ -64,7 +64,7 @@ def _pa(prog: Program, f: Func) -> PathAnalysis:
     return _PA[k]
 
 
-LATER_RULES = ' Later rules: evaluator membership by primitives, not by name; (R15.8) no memo keyed by evaluated values; (R15.9) no evaluated set reaches a call that can see its order. R15.4 (later form): the handler of the signal yields no rewrite at all, effect-free or not.'
+LATER_RULES = ' Later rules: evaluator membership by primitives, not by name; (R15.8) no memo keyed by evaluated values; (R15.9) no evaluated set reaches a call that can see its order. (R15.10) a false comprehension condition kills the whole comprehension, and only when nothing with an effect or of unknown value is evaluated before it. R15.4 (later form): the handler of the signal yields no rewrite at all, effect-free or not.'
 
 
 def check(prog: Program, tier: str) -> Result:
@@ -98,10 +98,121 @@ def check(prog: Program, tier: str) -> Result:
     _r15_6(prog, res, ev)
     _r15_8(prog, res, ev)
     _r15_9(prog, res, ev)
+    _r15_10(prog, res, ev)
     _r15_7(prog, res, ev)
-    res.floors.update({"R15.1": 23, "R15.2": 18, "R15.3": 2, "R15.4": 10, "R15.5": 2, "R15.6": 2, "R15.9": 2})
+    res.floors.update({"R15.1": 23, "R15.2": 18, "R15.3": 2, "R15.4": 10, "R15.5": 2, "R15.6": 2, "R15.9": 2, "R15.10": 5})
     res.analysed.update({"evaluator_functions": [f.fq for f in ev.members], "external_call_sites": len(ev.call_sites())})
     return res
+
+
+# ------------------------------------------------------------------------------------------------ R15.10
+def _r15_10(prog: Program, res: Result, ev: Evaluator) -> None:
+    """A comprehension condition with the known value False: NO element is produced, whatever the other `for` clauses
+    say - and Python still evaluates the iterables and the conditions before it.  At the consumer that evaluates the
+    conditions of a comprehension (a loop over `.generators` around a loop over `.ifs` around the evaluator call):
+      (a) a rewrite that keeps part of the comprehension is reached only when a `dead` flag - set exactly where a
+          condition evaluated to false, never reset between the clauses - is known to be False
+          (`[a for a in range(3) for b in range(2) if False]` is not `list(range(3))`);
+      (b) a rewrite to the empty container is reached only when that flag is True, the iterables were tested for
+          effects and no condition of unknown value (recorded in the handler of the signal) came before
+          (`[x for x in f() if 1/0 if 0]` is not `[]`)."""
+    n = 0
+    for f, c in ev.call_sites():
+        ifs_loop = _enclosing(c, f, lambda x: isinstance(x, ast.For) and norm(x.iter).endswith(".ifs"))
+        gen_loop = _enclosing(ifs_loop, f, lambda x: isinstance(x, ast.For) and norm(x.iter).endswith(".generators")) if ifs_loop else None
+        outer = _enclosing(gen_loop, f, lambda x: isinstance(x, ast.For)) if gen_loop else None
+        if outer is None:
+            continue
+        n += 1
+        st = parent(c)
+        vname = st.targets[0].id if isinstance(st, ast.Assign) and isinstance(st.targets[0], ast.Name) else None
+        # the branch taken when the evaluated condition is false
+        falsy_branches = []
+        for i in walk_body(ifs_loop.body):
+            if isinstance(i, ast.If):
+                t, pol = i.test, True
+                while isinstance(t, ast.UnaryOp) and isinstance(t.op, ast.Not):
+                    t, pol = t.operand, not pol
+                if isinstance(t, ast.Name) and t.id == vname:
+                    falsy_branches.append(i.orelse if pol else i.body)
+        in_gen_loop = {id(x) for x in ast.walk(gen_loop)}
+        assigns = [a for a in walk_body(outer.body) if isinstance(a, ast.Assign) and len(a.targets) == 1 and isinstance(a.targets[0], ast.Name)
+                   and isinstance(a.value, ast.Constant) and isinstance(a.value.value, bool)]
+        flags: set = set()
+        changed = True
+        while changed:
+            changed = False
+            for name in {a.targets[0].id for a in assigns} - flags:
+                trues = [a for a in assigns if a.targets[0].id == name and a.value.value is True]
+                if trues and all(_set_where_dead(a, falsy_branches, flags) for a in trues):
+                    flags.add(name)
+                    changed = True
+        monotone = {m for m in flags if not any(a.targets[0].id == m and a.value.value is False and id(a) in in_gen_loop for a in assigns)}
+        handler_lists = set()
+        for h in ast.walk(gen_loop):
+            if isinstance(h, ast.ExceptHandler):
+                for call in ast.walk(h):
+                    if isinstance(call, ast.Call) and isinstance(call.func, ast.Attribute) and call.func.attr in ("append", "add") and isinstance(call.func.value, ast.Name):
+                        handler_lists.add(call.func.value.id)
+        pa = PathAnalysis(prog, f)
+        node_var = norm(outer.target)
+        for y in walk_body(outer.body):
+            if not isinstance(y, ast.Yield) or id(y) in in_gen_loop or y.value is None:
+                continue
+            repl = y.value.elts[1] if isinstance(y.value, ast.Tuple) and len(y.value.elts) == 2 else y.value
+            keeps = any(isinstance(x, ast.Name) and x.id == node_var for x in ast.walk(repl))
+            worlds = pa.worlds_at(y)
+            if not worlds:
+                continue
+            def lit(w, name, pol):
+                return ("lit", w.token(name), pol) in w.facts
+            if keeps:
+                ok = all(any(lit(w, m, False) for m in monotone) for w in worlds)
+                res.decide(ok, "R15.10", f.loc(y), f.fq, f"{short(y, 70)} # keeps part of the comprehension",
+                           f"reached only when no condition evaluated to false ({sorted(monotone)} is False)" if ok else
+                           "a rewrite that keeps part of the comprehension can be reached after one of its conditions evaluated to false: the clause with the false "
+                           "condition is dropped and the others go on producing elements (`[a for a in range(3) for b in range(2) if False]` -> `list(range(3))`)")
+            else:
+                missing = []
+                for w in worlds:
+                    if not any(lit(w, m, True) for m in monotone):
+                        missing.append("not known to be the dead case")
+                    if not any(fct[0] == "lit" and not fct[2] and "has_side_effect(" in fct[1] for fct in w.facts):
+                        missing.append("the iterables are not tested for effects")
+                    if not any(lit(w, l, False) for l in handler_lists):
+                        missing.append("conditions of unknown value before the false one are not excluded")
+                missing = sorted(set(missing))
+                res.decide(not missing, "R15.10", f.loc(y), f.fq, f"{short(y, 70)} # the empty container",
+                           "only for a dead comprehension whose iterables have no effect and whose earlier conditions are all known" if not missing else
+                           "; ".join(missing) + ": what Python evaluates before it reaches the false condition disappears (`[x for x in f() if 1/0 if 0]` -> `[]`)")
+    res.analysed["comprehension_consumers"] = n
+
+
+def _enclosing(node, f: Func, pred):
+    p = parent(node) if node is not None else None
+    while p is not None and p is not f.node:
+        if pred(p):
+            return p
+        p = parent(p)
+    return None
+
+
+def _set_where_dead(a: ast.Assign, falsy_branches, flags) -> bool:
+    """The assignment `X = True` happens exactly where a condition is known to be false: in the branch taken for a false value,
+    or under `if <flag>` for a flag already known to mean that."""
+    p, child = parent(a), a
+    while p is not None and not isinstance(p, (ast.FunctionDef, ast.AsyncFunctionDef)):
+        if isinstance(p, ast.If):
+            if any(child in br for br in falsy_branches):
+                return True
+            t, pol = p.test, True
+            while isinstance(t, ast.UnaryOp) and isinstance(t.op, ast.Not):
+                t, pol = t.operand, not pol
+            if isinstance(t, ast.Name) and t.id in flags and ((pol and child in p.body) or (not pol and child in p.orelse)):
+                return True
+        child, p = p, parent(p)
+    return False
+
 
 
 # ------------------------------------------------------------------------------------------------ R15.9
@@ -544,6 +655,11 @@ VARIANTS = [
     Variant("keywords-dropped-again", "FIRE", "core",
             "    if isinstance(node, ast.Call) and not node.keywords:  # e.g. int(\"10\", base=2) is not int(\"10\")",
             "    if isinstance(node, ast.Call):", "R15.6"),
+    Variant("false-condition-drops-only-its-clause", "FIRE", "fixes", "            if any_if_always_false:\n                comprehension_is_dead = True\n                break\n", "            if any_if_always_false:\n                any_comprehension_modified = True\n                continue\n", "R15.10"),
+    Variant("dead-comprehension-unknown-conditions-not-excluded", "FIRE", "fixes", "        if unknown_conditions_before or any(\n            core.has_side_effect(iterable, safe_callables) for iterable in iterables_before\n        ):", "        if any(\n            core.has_side_effect(iterable, safe_callables) for iterable in iterables_before\n        ):", "R15.10"),
+    Variant("dead-comprehension-iterables-not-tested", "FIRE", "fixes", "        if unknown_conditions_before or any(\n            core.has_side_effect(iterable, safe_callables) for iterable in iterables_before\n        ):", "        if unknown_conditions_before:", "R15.10"),
+    Variant("dead-flag-reset-for-every-clause", "FIRE", "fixes", "            any_if_always_false = False\n            iterables_before.append(comprehension.iter)\n", "            any_if_always_false = False\n            comprehension_is_dead = False\n            iterables_before.append(comprehension.iter)\n", "R15.10"),
+    Variant("dead-flag-set-in-the-false-branch-directly", "SILENT", "fixes", "                    any_if_always_false = True\n                    break\n", "                    any_if_always_false = True\n                    comprehension_is_dead = True\n                    break\n", "R15.10"),
     Variant("same-text-on-both-sides-folded-to-true", "FIRE", "symbolic_math",
             "            right = core.literal_value(comparator)\n        except ValueError:\n            continue\n",
             "            right = core.literal_value(comparator)\n        except ValueError:\n            if isinstance(operator, ast.Eq) and core.unparse(node.left) == core.unparse(comparator) and not core.has_side_effect(node.left):\n                yield node, ast.Constant(value=True, kind=None)\n            continue\n", "R15.4"),
